@@ -30,10 +30,13 @@ structure Contract {V : Type} (ops : Ops V) (g : Graph) : Prop where
   /-- operators with subgraphs (`If`, `Loop`) do not run in place -/
   notSub : ∀ i, ops.inPlaceIdx i ≠ [] → ops.isSubgraph i = false
   /-- `run_in_place` on the taken `(pos, value)`s — distinct positions, each of them a `None`
-  placeholder of `ins` — equals `run` on the list with the values put back. -/
+  placeholder of `ins`, exactly one of them for a commutative operator (the real commutative
+  operators call `InPlaceInputs::into_single`) — equals `run` on the list with the values put
+  back. -/
   inPlace : ∀ i op, getOp g i = some op → ∀ taken ins full, taken ≠ [] →
     (taken.map (fun t => t.1)).Nodup →
     (∀ p v, (p, v) ∈ taken → ins[p]? = some none) →
+    (op.commutative = true → taken.length = 1) →
     (∀ p ∈ taken.map (fun t => t.1), p ∈ ops.inPlaceIdx i ∨ op.commutative = true) →
     FillsFrom taken 0 ins full → ops.runInPlace i taken ins = ops.run i full []
 
@@ -245,6 +248,13 @@ theorem filterMap_fst_nodup {idx : List Nat} (f : Nat → Option (Nat × Nat))
       rw [h2] at hde
       rw [← this, hde] at hq
       exact h.1 hq
+
+theorem candidates_comm_length {V : Type} {ops : Ops V} (i : Nat) (op : OpNode) (temps : Nat → Option V)
+    (h : op.commutative = true) : (candidates ops i op temps).length ≤ 1 := by
+  unfold candidates
+  split
+  · simp
+  · split <;> simp
 
 theorem candidates_fst_nodup {V : Type} {ops : Ops V} (i : Nat) (op : OpNode) (temps : Nat → Option V)
     (h : (ops.inPlaceIdx i).Nodup) : ((candidates ops i op temps).map (fun c => c.1)).Nodup := by
